@@ -227,7 +227,7 @@ func (r *c07Run) checkTransform(key, file, src string, loader api.Loader, cfg c0
 		}
 		return smSource{}, false
 	}, cfg.o.SourcesContent == api.SourcesContentInclude, nil, &r.st, func(p smProblem) bool {
-		return r.known(p, src, loader == api.LoaderTS, false, cfg.o.Target != api.DefaultTarget && cfg.o.Target != api.ESNext, src, (cfg.o.Format == api.FormatIIFE || cfg.o.Format == api.FormatCommonJS) && strings.Contains(src, "export"))
+		return r.known(p, src, loader == api.LoaderTS, false, cfg.o.Target != api.DefaultTarget && cfg.o.Target != api.ESNext, src, (cfg.o.Format == api.FormatIIFE || cfg.o.Format == api.FormatCommonJS) && strings.Contains(src, "export"), nil)
 	})
 	if bad != "" {
 		r.fail(key, bad, src, gen, mapData, cfg.name)
@@ -241,7 +241,18 @@ func (r *c07Run) checkTransform(key, file, src string, loader api.Loader, cfg c0
 var c07HelperName = regexp.MustCompile(`^(__\w+|_[a-z]\d*|(init|require|import)_\w+|\w+_default|\w+_exports)$`)
 
 // known maps a false mapping onto a recorded finding (known_findings.json); anything else stays a violation
-func (r *c07Run) known(p smProblem, src string, ts bool, renamedInStage1 bool, lowersOrBundle bool, allSources string, formatConv bool) bool {
+func (r *c07Run) known(p smProblem, src string, ts bool, renamedInStage1 bool, lowersOrBundle bool, allSources string, formatConv bool, stage1Start map[string][2]int) bool {
+	// where line 0 column 0 of the module handed to the bundler lies in the original file: 0:0, or its image
+	// under the stage-1 map when the bundler input carries an input source map
+	atModuleStart := p.origLine == 0 && p.origCol == 0
+	if stage1Start != nil {
+		atModuleStart = false
+		for suffix, at := range stage1Start {
+			if strings.HasSuffix(p.source, "src/"+suffix) && at == [2]int{p.origLine, p.origCol} {
+				atModuleStart = true
+			}
+		}
+	}
 	key := ""
 	switch p.class {
 	case "name":
@@ -253,7 +264,7 @@ func (r *c07Run) known(p smProblem, src string, ts bool, renamedInStage1 bool, l
 			key = "sourcemap-name-of-compiler-generated-symbol-recorded-at-another-token"
 		case ts && regexp.MustCompile(`\b(enum|namespace)\s+`+regexp.QuoteMeta(p.name)+`\b`).MatchString(src):
 			key = "sourcemap-name-of-ts-enum-or-namespace-closure-parameter-recorded-at-member"
-		case lowersOrBundle && src == "" && p.origLine == 0 && p.origCol == 0:
+		case lowersOrBundle && src == "" && atModuleStart:
 			key = "sourcemap-name-of-hoisted-declaration-of-wrapped-module-recorded-at-file-start"
 		case renamedInStage1 && !smIdentMarker.MatchString(p.name):
 			key = "sourcemap-names-not-composed-through-input-source-map"
@@ -531,7 +542,7 @@ func c07Bundles(c *Check, r *c07Run, quick bool) {
 					c.Violation(key, map[string]interface{}{"kind": "bundle of a valid marker graph fails", "error": res.Errors[0].Text, "files": files})
 					continue
 				}
-				c07CheckOutputsOpt(c, r, key, dir, res.OutputFiles, mode, cfg.o.SourcesContent == api.SourcesContentInclude, cfg.o.SourceRoot, files, false, equiv, false)
+				c07CheckOutputsOpt(c, r, key, dir, res.OutputFiles, mode, cfg.o.SourcesContent == api.SourcesContentInclude, cfg.o.SourceRoot, files, false, equiv, false, nil)
 			}
 		}
 		// ---- composition through input source maps: stage 1 transforms src/* into mid/* with maps, stage 2 bundles mid/*
@@ -561,6 +572,26 @@ func c07Bundles(c *Check, r *c07Run, quick bool) {
 				c.Violation("compose:"+s1.name+":"+lay.name, map[string]interface{}{"kind": "stage 1 build fails", "error": r1.Errors[0].Text})
 				continue
 			}
+			// image of line 0 column 0 of every stage-1 output under its own map (for the known-finding classifier)
+			stage1Start := map[string][2]int{}
+			for _, f := range names {
+				rel := strings.TrimPrefix(filepath.ToSlash(f), "src/")
+				gen, err := os.ReadFile(filepath.Join(o1.Outdir, filepath.FromSlash(rel)))
+				if err != nil {
+					continue
+				}
+				md, ok := smInlineMap(string(gen))
+				if !ok {
+					md, _ = os.ReadFile(filepath.Join(o1.Outdir, filepath.FromSlash(rel)) + ".map")
+				}
+				if m1, bad := smDecode(md); bad == "" {
+					for _, sg := range m1.segs {
+						if sg.genLine == 0 && sg.genCol == 0 {
+							stage1Start[rel] = [2]int{sg.line, sg.col}
+						}
+					}
+				}
+			}
 			for ci, cfg := range cfgs {
 				if ci%2 == 1 && quick {
 					continue
@@ -584,7 +615,7 @@ func c07Bundles(c *Check, r *c07Run, quick bool) {
 				}
 				// sources content: stage 2 can only include content that stage 1 provided
 				wantContent := cfg.o.SourcesContent == api.SourcesContentInclude && s1.o.SourcesContent == api.SourcesContentInclude
-				c07CheckOutputsOpt(c, r, key, dir, res.OutputFiles, api.SourceMapLinked, wantContent, cfg.o.SourceRoot, files, cfg.o.SourcesContent == api.SourcesContentInclude && !wantContent, equiv, s1.o.MinifyIdentifiers)
+				c07CheckOutputsOpt(c, r, key, dir, res.OutputFiles, api.SourceMapLinked, wantContent, cfg.o.SourceRoot, files, cfg.o.SourcesContent == api.SourcesContentInclude && !wantContent, equiv, s1.o.MinifyIdentifiers, stage1Start)
 				c.Sub("composed_bundles", 1)
 			}
 			os.RemoveAll(filepath.Join(dir, "mid"))
@@ -592,7 +623,7 @@ func c07Bundles(c *Check, r *c07Run, quick bool) {
 	}
 }
 
-func c07CheckOutputsOpt(c *Check, r *c07Run, key, dir string, outs []api.OutputFile, mode api.SourceMap, wantContent bool, sourceRoot string, files map[string]string, contentUnknown bool, equiv map[string]string, renamedInStage1 bool) {
+func c07CheckOutputsOpt(c *Check, r *c07Run, key, dir string, outs []api.OutputFile, mode api.SourceMap, wantContent bool, sourceRoot string, files map[string]string, contentUnknown bool, equiv map[string]string, renamedInStage1 bool, stage1Start map[string][2]int) {
 	allText := ""
 	for _, t := range files {
 		allText += t + "\n"
@@ -668,7 +699,7 @@ func c07CheckOutputsOpt(c *Check, r *c07Run, key, dir string, outs []api.OutputF
 			txt, ok := files[filepath.ToSlash(rel)]
 			return smSource{txt, strings.HasSuffix(rel, ".css")}, ok
 		}, wantContent, equiv, st, func(p smProblem) bool {
-			return r.known(p, "", false, renamedInStage1, true, allText, false)
+			return r.known(p, "", false, renamedInStage1, true, allText, false, stage1Start)
 		})
 		if bad != "" {
 			fail(bad, gen, mapData)
